@@ -750,7 +750,12 @@ static int restore_mapping (char **str, svalue_t * sv) {
   int err;
 
   if (save_svalue_depth)
-    size = save_svalue_sizes[save_svalue_depth - 1];
+    {
+      /* sizes come from the pre-scan of the enclosing value; damaged text can get here without one */
+      if (!save_svalue_sizes || save_svalue_depth > save_max_depth)
+        return ROB_MAPPING_ERROR;
+      size = save_svalue_sizes[save_svalue_depth - 1];
+    }
   else if ((size = restore_size (str, 1)) < 0)
     {
       debug_error ("corrupted");
@@ -1000,7 +1005,11 @@ static int restore_class (char **str, svalue_t * ret) {
   int err;
 
   if (save_svalue_depth)
-    size = save_svalue_sizes[save_svalue_depth - 1];
+    {
+      if (!save_svalue_sizes || save_svalue_depth > save_max_depth)
+        return ROB_CLASS_ERROR;
+      size = save_svalue_sizes[save_svalue_depth - 1];
+    }
   else if ((size = restore_size (str, 0)) < 0)
     return ROB_CLASS_ERROR;
 
@@ -1101,7 +1110,11 @@ static int restore_array (char **str, svalue_t * ret) {
   int err;
 
   if (save_svalue_depth)
-    size = save_svalue_sizes[save_svalue_depth - 1];
+    {
+      if (!save_svalue_sizes || save_svalue_depth > save_max_depth)
+        return ROB_ARRAY_ERROR;
+      size = save_svalue_sizes[save_svalue_depth - 1];
+    }
   else if ((size = restore_size (str, 0)) < 0)
     return ROB_ARRAY_ERROR;
 
